@@ -20,6 +20,7 @@ type G struct {
 	r     *Rng
 	names []string
 	kinds map[string]int // element kinds used in the current case
+	late  []func()       // nested actions a conntrack action still has to receive, after it was handed to its container
 }
 
 func NewG(r *Rng) *G {
@@ -29,6 +30,17 @@ func NewG(r *Rng) *G {
 }
 
 func (g *G) use(k string) { g.kinds[k]++ }
+
+// flushLate performs the held-back ct.AddAction calls: the conntrack action grows after it has
+// been added to its instruction / bucket / packet-out / enclosing conntrack action.  The
+// recipe is the same as for the bottom-up order: the encoding must not depend on the order.
+func (g *G) flushLate() {
+	for len(g.late) > 0 {
+		f := g.late[0]
+		g.late = g.late[1:]
+		f()
+	}
+}
 
 func bterm(b []byte) string { return "(unpack " + packBytes(b) + ")" }
 func boolt(b bool) string {
@@ -417,9 +429,20 @@ func (g *G) action(depth int) (of.Action, string) {
 			a.Alg = alg
 		}
 		var kids []string
-		for i, n := 0, g.r.Geom(2, 6); i < n; i++ {
+		nk := g.r.Geom(2, 6)
+		hold := 0 // the last `hold` nested actions are added only after the container is complete
+		if nk > 0 && g.r.Intn(3) == 0 {
+			hold = 1 + g.r.Intn(nk)
+			g.use("history:late-growth")
+		}
+		for i := 0; i < nk; i++ {
 			ka, kt := g.action(depth - 1)
-			a.AddAction(ka)
+			if i >= nk-hold {
+				late := ka
+				g.late = append(g.late, func() { a.AddAction(late) })
+			} else {
+				a.AddAction(ka)
+			}
 			kids = append(kids, kt)
 		}
 		g.use("act:nx-ct")
@@ -636,6 +659,7 @@ func (g *G) instr() (of.Instruction, string) {
 			in.AddAction(a, pre)
 			calls[i] = fmt.Sprintf("(%s, %s)", ts[i], boolt(pre))
 		}
+		g.flushLate()
 		g.use("instr:" + name)
 		return in, fmt.Sprintf("(%s %s)", name, listT(calls))
 	}
@@ -652,6 +676,7 @@ func (g *G) bucket() (*of.Bucket, string) {
 	for _, a := range as {
 		b.AddAction(a)
 	}
+	g.flushLate()
 	g.use("bucket")
 	return b, fmt.Sprintf("(BK %d %d %d %s)", w, p, gr, listT(ts))
 }
@@ -757,6 +782,7 @@ func (g *G) message(depth int) (util.Message, string, string, uint32) {
 		for _, a := range as {
 			p.AddAction(a)
 		}
+		g.flushLate()
 		if g.r.Intn(4) == 0 {
 			return p, fmt.Sprintf("(MPacketOut %d %d %s None)", buf, ip, listT(ts)), "packet-out/no-data", p.Xid
 		}
